@@ -456,6 +456,22 @@ impl StringEval {
                 nt = true;
             }
         }
+        // C12: "a PURL parsed with a checksum qualifier in any equivalent spelling carries that one
+        // canonical text" - the text the reference derives from the INPUT (entries sorted by lower-cased
+        // algorithm, lower-case hex), not merely some text that is canonical in itself
+        if self.mon & M12 != 0 && self.mon & M02 == 0 {
+            if let Outcome::Ok(p) = &gs {
+                if let Some(got) = p.qualifiers().get("checksum") {
+                    let r = R::rparse(s, Mode::Generic);
+                    if r.unjudged == 0 && r.defects == 0 {
+                        let want = r.tuple.as_ref().and_then(|t| t.quals.get("checksum").cloned());
+                        if want.as_deref() != Some(got) {
+                            acc.violate(Violation { prop: "C12", kind: "checksum-differs-from-reference".into(), case: case_string("String", s), detail: format!("checksum text {:?}, the input's entries in canonical form are {:?}", got, want) });
+                        }
+                    }
+                }
+            }
+        }
         #[cfg(feature = "serde")]
         if self.mon & M16 != 0 {
             m16(s, &gs, acc);
